@@ -270,6 +270,19 @@ CLAIMS = {
     note=("Quick replays every third collection per shape. For directory/glob openings the order is the library's (row "
           "multiset compared). One defect repaired (>= 3 relative paths); known finding KF-C14-1 (differing dictionaries)."),
     technique="TLA+ specs (collection lattice, dictionary mechanism) + TLC enumeration; spec->code replay"),
+ "C15": dict(
+    level="model_checking",
+    text=("spec/Nested.tla shreds rows (null row, empty list, lists with null elements; optional/required list and element) "
+          "into Dremel triples, cuts the stream into pages at every position and states the contract 'assembled = rows'; "
+          "the MECHANISM is a transcription of cencoding._assemble_objects with its per-page locals and the position it "
+          "carries across pages. TLC finds the cut positions at which the transcription deviates and exports every case "
+          "with that prediction; pqspec renders each as a LIST file (v1 with cuts anywhere, v2 with row-aligned cuts; plain "
+          "and dictionary int64, plain text) and the real reader's rows are compared with the rows."),
+    design_ref="DESIGN.md section 5 C15, section 6",
+    note=("MAP columns are not generated (only LIST): the assembly code path is the same function, the key/value pairing "
+          "into dicts is not exercised. Known findings: v1 continuation starting with nulls (exactly the model's "
+          "predictions: no v1 failure outside them), v2 nested pages non-functional. Native code."),
+    technique="TLA+ spec: contract (record assembly) vs transcribed mechanism, TLC over all page cuts; replay via independent encoder"),
 }
 
 NOT_BUILT = "not built yet (construction order in DESIGN.md section 9)"
